@@ -201,7 +201,9 @@ func (p *Program) Apply(w *World) *rux.Router {
 					rt.Use(w.funcs(s.PreUse, s.Spare)...)
 					model.ObserveRoute(rt)
 					rt.AttachTo(r)
-					rt.Use(w.funcs(s.Variadic, s.Spare)...)
+					if len(s.Variadic) > 0 {
+						rt.Use(w.funcs(s.Variadic, s.Spare)...)
+					}
 					s.Route = rt
 				default:
 					r.Any(s.Path, main, w.funcs(s.Variadic, s.Spare)...)
